@@ -12,9 +12,15 @@
     * `uncommitted_change_keeps_digest` (from C02) — the converse: what the hash type does not commit to can
       change freely.
   "Fails verification" for a different digest is ECDSA unforgeability, outside any model (trusted base).
+
+  The first sentence of the property — a library-made P2PKH signature is accepted by the interpreter — is
+  `p2pkh_forkid_signature_accepted` / `p2pkh_legacy_signature_accepted`: symbolic execution of the interpreter model
+  (`Engine.Execute`: option checks, both parsers, seven instructions, final check) on the template, for every flag word,
+  key, transaction context and signature (GoBT/Interp/P2PKH.lean).
 -/
 import GoBT.Props.C02
 import GoBT.Props.C03
+import GoBT.Interp.P2PKH
 namespace GoBT.C04
 open GoBT GoBT.Sighash
 
@@ -193,6 +199,66 @@ theorem legacy_ignores_spent_value (tx : Tx) (idx ht : Nat) (sc : Bytes) (f : In
     satoshiSpec tx idx ht sc := by
   unfold satoshiSpec
   simp only [C03.mapIdxFrom_map]
+
+/-! ### a signed P2PKH input is accepted -/
+section Accept
+open GoBT.Interp GoBT.Interp.P2PKH
+
+/-- **A FORKID signature made for the input is accepted.**  Whatever the flag word (with the FORKID flag; either era;
+    any further policy flags the engine accepts as a combination), the transaction, the input index and the spent
+    output recorded in the context `c`: if `pk` hashes to the 20 bytes `h` of the spent P2PKH output, `fullSig` is a
+    signature with a FORKID hash type that satisfies the encoding rules in force, and it verifies under `pk` for the
+    signature hash of *that* transaction, input and spent output with the locking script as script code — which is what
+    the library's signing path signs (`sigDigest` is `CalcInputSignatureHash` on the checked input carrying the spent
+    script and value) — then `Engine.Execute` accepts `<fullSig> <pk>` against `DUP HASH160 <h> EQUALVERIFY CHECKSIG`. -/
+theorem p2pkh_forkid_signature_accepted (H : Crypto) (flags : Nat) (c : Ctx) (fullSig pk h digest : Bytes)
+    (hflags : hasFlag (mkEnv H flags (some c)).flags fCleanStack = true → hasFlag (mkEnv H flags (some c)).flags fBip16 = true)
+    (hfork : hasFlag (mkEnv H flags (some c)).flags Interp.fForkID = true)
+    (hbit : (fullSig.getLast?.getD 0).toNat &&& 0x40 = 0x40)
+    (hs : 2 ≤ fullSig.length ∧ fullSig.length ≤ 75) (hp : 2 ≤ pk.length ∧ pk.length ≤ 75) (hh : h.length = 20)
+    (hkey : H.ripemd160 (H.sha256 pk) = h)
+    (hht : checkHashTypeEncoding (mkEnv H flags (some c)) (fullSig.getLast?.getD 0).toNat = none)
+    (hse : checkSignatureEncoding (mkEnv H flags (some c)) fullSig.dropLast = none)
+    (hpe : checkPubKeyEncoding (mkEnv H flags (some c)) pk = none)
+    (hdig : sigDigest (mkEnv H flags (some c)) c (lockBytes h) (fullSig.getLast?.getD 0).toNat = some digest)
+    (hpk : H.pubKeyOk pk = true)
+    (hver : H.verify (hasFlag (mkEnv H flags (some c)).flags fStrictEnc || hasFlag (mkEnv H flags (some c)).flags fDERSig)
+              fullSig.dropLast digest pk = some true) :
+    (execute H flags (some c) (unlockBytes fullSig pk) (lockBytes h)).1 = .accept :=
+  p2pkh_spend_accepted H flags c fullSig pk h (lockBytes h) digest hflags hs hp hh hkey hht hse hpe
+    (scriptCode_forkid _ h fullSig hh hfork hbit) hdig hpk hver
+
+/-- **A legacy signature made for the input is accepted** (no FORKID flag, or a hash type without the FORKID bit where
+    the encoding rules allow it): signature and separator removal leave the template's script code unchanged. -/
+theorem p2pkh_legacy_signature_accepted (H : Crypto) (flags : Nat) (c : Ctx) (fullSig pk h digest : Bytes)
+    (hflags : hasFlag (mkEnv H flags (some c)).flags fCleanStack = true → hasFlag (mkEnv H flags (some c)).flags fBip16 = true)
+    (hleg : hasFlag (mkEnv H flags (some c)).flags Interp.fForkID = false ∨ (fullSig.getLast?.getD 0).toNat &&& 0x40 ≠ 0x40)
+    (hs : 2 ≤ fullSig.length ∧ fullSig.length ≤ 75) (hp : 2 ≤ pk.length ∧ pk.length ≤ 75) (hh : h.length = 20)
+    (hne : h ≠ fullSig)
+    (hkey : H.ripemd160 (H.sha256 pk) = h)
+    (hht : checkHashTypeEncoding (mkEnv H flags (some c)) (fullSig.getLast?.getD 0).toNat = none)
+    (hse : checkSignatureEncoding (mkEnv H flags (some c)) fullSig.dropLast = none)
+    (hpe : checkPubKeyEncoding (mkEnv H flags (some c)) pk = none)
+    (hdig : sigDigest (mkEnv H flags (some c)) c (lockBytes h) (fullSig.getLast?.getD 0).toNat = some digest)
+    (hpk : H.pubKeyOk pk = true)
+    (hver : H.verify (hasFlag (mkEnv H flags (some c)).flags fStrictEnc || hasFlag (mkEnv H flags (some c)).flags fDERSig)
+              fullSig.dropLast digest pk = some true) :
+    (execute H flags (some c) (unlockBytes fullSig pk) (lockBytes h)).1 = .accept :=
+  p2pkh_spend_accepted H flags c fullSig pk h (lockBytes h) digest hflags hs hp hh hkey hht hse hpe
+    (scriptCode_legacy _ h fullSig hh hne hleg) hdig hpk hver
+
+/-- non-vacuity: a toy `Crypto` (identity hashes except a constant 20-byte RIPEMD-160, a verifier that accepts), the
+    sample transaction of C03, legacy hash type 0x01, no flags — every hypothesis of the legacy theorem holds, and the
+    model indeed accepts -/
+def toyH : Crypto := ⟨id, id, fun _ => List.replicate 20 7, fun _ => true, fun _ _ _ _ => some true, fun _ => false⟩
+def toyCtx : Ctx := ⟨C03.sample, 0, { sats := 5, script := lockBytes (List.replicate 20 7) }⟩
+example :
+    (sigDigest (mkEnv toyH 0 (some toyCtx)) toyCtx (lockBytes (List.replicate 20 7)) 1).isSome = true ∧
+    checkHashTypeEncoding (mkEnv toyH 0 (some toyCtx)) 1 = none ∧
+    (execute toyH 0 (some toyCtx) (unlockBytes [0x30, 0x01] [0x02, 0x09]) (lockBytes (List.replicate 20 7))).1 = .accept := by
+  refine ⟨by decide +kernel, by decide +kernel, by decide +kernel⟩
+
+end Accept
 
 /-- non-vacuity of `forkid_commits`' hypotheses and a concrete uncommitted change -/
 example : (C03.sample.inputs[0]?.getD default).prevTxID.length = (C03.sample.inputs[0]?.getD default).prevTxID.length := rfl
